@@ -165,13 +165,13 @@ theorem unescape_err (T : LexTables) (word : List Char) (m : String) (h : unesca
 /-- what one `root` step does to the input `rest` at location `L` -/
 def RootOK (cc : CharClass) (T : LexTables) (L : Loc) (rest : List Char) : Step → Prop
   | .tok t s1 r1 => ∃ raw, raw ≠ [] ∧ rest = raw ++ r1 ∧ (∀ c, raw.head? = some c → cc.isSpace c = false) ∧
-      t.loc = L ∧ t.kind ≠ .eof ∧ TextOf T t raw ∧ Fresh s1 (advLoc L raw) r1
+      t.loc = L ∧ t.kind ≠ .eof ∧ TextOf cc T t raw ∧ Fresh s1 (advLoc L raw) r1
   | .skip s1 r1 => ∃ c, rest = c :: r1 ∧ cc.isSpace c = true ∧ Fresh s1 (Loc.adv L c) r1
   | .eof t => rest = [] ∧ t.kind = .eof
   | .fail e => e.2 ≠ "fuel"
 
 theorem RootOK.of_stepOK {cc : CharClass} {T L c cs st} (hsp : cc.isSpace c = false)
-    (h : StepOK T L [c] cs st) : RootOK cc T L (c :: cs) st := by
+    (h : StepOK cc T L [c] cs st) : RootOK cc T L (c :: cs) st := by
   cases st with
   | tok t s1 r1 =>
     obtain ⟨w1, e, hl, hk, ht, hf⟩ := h
@@ -263,7 +263,7 @@ inductive Laid (cc : CharClass) (T : LexTables) : Loc → List Char → List Tok
   | tok (L : Loc) (gap raw rest : List Char) (t : Token) (ts : List Token)
       (hws : ∀ c ∈ gap, cc.isSpace c = true) (hne : raw ≠ [])
       (hfirst : ∀ c, raw.head? = some c → cc.isSpace c = false)
-      (hk : t.kind ≠ .eof) (hloc : t.loc = advLoc L gap) (htext : TextOf T t raw)
+      (hk : t.kind ≠ .eof) (hloc : t.loc = advLoc L gap) (htext : TextOf cc T t raw)
       (htail : Laid cc T (advLoc L (gap ++ raw)) rest ts) : Laid cc T L (gap ++ raw ++ rest) (t :: ts)
 
 theorem Laid.cons_space {cc : CharClass} {T L c rest toks} (hc : cc.isSpace c = true)
@@ -325,7 +325,7 @@ theorem lexChars_laid (cc : CharClass) (input : List Char) (toks : List Token)
 /-- every token but EOF sits at the position of the first character of its raw text -/
 theorem Laid.positions {cc : CharClass} {T L input toks} (h : Laid cc T L input toks) :
     ∀ t ∈ toks, t.kind ≠ .eof → ∃ pre raw post, input = pre ++ raw ++ post ∧ raw ≠ [] ∧
-      (∀ c, raw.head? = some c → cc.isSpace c = false) ∧ t.loc = advLoc L pre ∧ TextOf T t raw := by
+      (∀ c, raw.head? = some c → cc.isSpace c = false) ∧ t.loc = advLoc L pre ∧ TextOf cc T t raw := by
   induction h with
   | eof L trail t hws hk => intro t' ht' hk'; simp at ht'; subst ht'; exact absurd hk hk'
   | tok L gap raw rest t ts hws hne hfirst hk hloc htext htail ih =>
